@@ -112,6 +112,8 @@ type FnExec struct {
 	nalloc         int
 	strConst       map[string]string
 	hashStated     map[int]bool // type tags for which (hashable tag) has been stated
+	tagsStated     []int
+	ifacePreds     map[string]types.Type // implements_<I> predicates in use
 	atcallHit      map[int]bool
 	inTypeInv      bool
 	callOrd        map[ssa.Instruction]int
